@@ -3,7 +3,7 @@
 From Coq Require Import ZArith List Bool Lia ZifyBool.
 From Coq Require String.
 Notation string := String.string.
-From PS.model Require Import Smt Enc Prog.
+From PS.model Require Import Smt Enc Ind Prog.
 From PS.spec Require Import Spec.
 From PS.proofs Require Import Base.
 Import ListNotations.
@@ -321,7 +321,7 @@ Definition drop_flagged (st : pstate) : pstate :=
      ps_cumuls := ps_cumuls st; ps_selects := ps_selects st; ps_reqs := ps_reqs st;
      ps_areqs := ps_areqs st; ps_busy := ps_busy st;
      ps_cons := filter (fun c => negb (c_flag c)) (ps_cons st);
-     ps_neg := ps_neg st; ps_nauto := ps_nauto st |}.
+     ps_neg := ps_neg st; ps_nauto := ps_nauto st; ps_ext := ps_ext st |}.
 
 Lemma flat_map_filter_flag (F : conrec -> list (tag * form)) l :
   flat_map (fun c => if c_flag c then [] else F c) l
@@ -335,7 +335,7 @@ Qed.
 
 Theorem C10_no_leak_eq st : initialize st = initialize (drop_flagged st).
 Proof.
-  unfold initialize. cbn [drop_flagged ps_tasks ps_workers ps_cons ps_horizon].
+  unfold initialize. cbn [drop_flagged ps_tasks ps_workers ps_cons ps_horizon ps_ext].
   rewrite (flat_map_filter_flag (fun c => tagged (TgCons (c_id c)) (conrec_asserts c))).
   reflexivity.
 Qed.
@@ -349,6 +349,7 @@ Lemma step_flags_operands st id opt x st' :
 Proof.
   cbn [step_problem]. destruct (find_cons st id); [discriminate|].
   destruct (resolve st x) as [re|]; [|discriminate].
+  destruct (negb (buffer_known st re)); [discriminate|].
   destruct (negb (check_c re)); [discriminate|].
   destruct (negb (nodup_forms (enc_cons id opt re))); [discriminate|].
   intros [= <-]. exists re. split; [reflexivity|]. intros c Hc Hid. cbn [ps_cons].
